@@ -796,6 +796,7 @@ func collectionOf(vm *VM, agg func([]Term, *Env) Term, template, goal, instances
 
 func variant(t1, t2 Term, env *Env) bool {
 	s := map[Variable]Variable{}
+	r := map[Variable]Variable{} // The renaming has to be one-to-one: f(A, B) isn't a variant of f(C, C).
 	rest := [][2]Term{
 		{t1, t2},
 	}
@@ -812,7 +813,10 @@ func variant(t1, t2 Term, env *Env) bool {
 						return false
 					}
 				} else {
-					s[x] = y
+					if _, ok := r[y]; ok {
+						return false
+					}
+					s[x], r[y] = y, x
 				}
 			default:
 				return false
